@@ -90,6 +90,10 @@ func timeModel(name string) interceptFn {
 		return func(it *Interp, fn *ssa.Function, a []Value) Value { return it.ctx.Eq(it.timeNS(a[0]), it.timeNS(a[1])) }
 	case "(time.Time).IsZero":
 		return func(it *Interp, fn *ssa.Function, a []Value) Value { return it.ctx.Eq(it.timeNS(a[0]), it.ctx.BV(0, 64)) }
+	case "(time.Time).Unix":
+		return func(it *Interp, fn *ssa.Function, a []Value) Value {
+			return it.ctx.SDiv(it.timeNS(a[0]), it.ctx.BV(1_000_000_000, 64))
+		}
 	case "(time.Time).UnixNano":
 		return func(it *Interp, fn *ssa.Function, a []Value) Value { return it.timeNS(a[0]) }
 	case "(time.Time).UTC", "(time.Time).Local", "(time.Time).Round", "(time.Time).Truncate":
